@@ -50,7 +50,7 @@ func genC17(t *rapid.T) Case {
 	c.Keys = GenKeys(t, 1, 3, false)
 	n := rapid.IntRange(2, 14).Draw(t, "nops")
 	for i := 0; i < n; i++ {
-		k := rapid.SampledFrom([]string{"burst", "burst", "burst", "delburst", "delburst", "gc", "reopen", "set", "del"}).Draw(t, "kind")
+		k := rapid.SampledFrom([]string{"burst", "burst", "burst", "delburst", "delburst", "gc", "reopen", "set", "del", "droproot"}).Draw(t, "kind")
 		op := Op{K: k}
 		switch k {
 		case "burst":
